@@ -80,6 +80,28 @@ CLAIMED["C05"] = dict(
        "MarkPrefixScanned, filters, deletes. Schedules are sequential interleavings of steps of <= 2 read-write txs; true parallelism only in the free-running runs.",
   technique="TLC exhaustive model checking + deterministic replay of TLC schedules + TLC trace validation of real reads/commits")
 
+CLAIMED["C15"] = dict(
+  category="exploration",
+  text="spec/Codec.tla partitions every SQL type into boundary classes (min/max integers and neighbours, -Inf/-0/+0/denormals/+Inf, empty/NUL-containing/maximal strings and blobs, "
+       "timestamps before 1970 and at microsecond precision, UUIDs, booleans, NULL), defines the SQL order on them and on composite keys, and the field-presence combinations of the "
+       "structural codecs (TxHeader v0/v1, TxMetadata, KVMetadata, exported txs with/without truncated values, SQL rows with NULLs). TLC enumerates all pairs (and triples for "
+       "composite-key transitivity), proves the relation antisymmetric/transitive and writes the expectations; harness/cmd/c15 concretises every class to several values and checks "
+       "on the real code Decode(Encode(v)) = v, v < w <=> Enc(v) <bytes Enc(w), v = w <=> Enc(v) = Enc(w) for the key and value codecs, TxHeader/TxMetadata/KVMetadata bytes, "
+       "ExportTx -> ReplicateTx between two real stores, the schema converters and through a real SQL engine (index order, index equality, sort spill files).",
+  design_ref="DESIGN.md §4 C15, docs/C15.md",
+  note="Model-based enumeration, not a proof about bit patterns: inside a class values are sampled (4 variants quick / 12 thorough). NaN, sub-second expirations excluded.",
+  technique="TLA+ domain partition + order relation, exhaustive pair/triple enumeration by TLC, replay on the real codecs and SQL engine")
+CLAIMED["C16"] = dict(
+  category="exploration",
+  text="spec/Wire.tla describes each binary format as a list of field descriptors (exported tx, TxHeader, TxMetadata, KVMetadata, appendable metadata and file header, PostgreSQL "
+       "frontend messages, stream chunks, proof protobuf messages) and TLC enumerates, for 91 small instance shapes, EVERY (field, operator) mutation and every truncation point "
+       "(~7.3k) with the post-condition error => no effect. harness/cmd/c16 builds the valid bytes with the real encoders (layout drift is a machinery fault), applies each mutation "
+       "and calls the real decoder under recover, a deadline and an allocation cap (allocation-driven decoders in a child process); for ReplicateTx the store state (committed / "
+       "precommitted ids and hashes) is compared before and after.",
+  design_ref="DESIGN.md §4 C16, docs/C16.md",
+  note="Structure-aware mutations of the described formats only: SQL text, purely random bytes, the pgsql startup packet and the document converters are not covered.",
+  technique="TLA+ format descriptors, exhaustive mutation enumeration by TLC, replay on the real decoders")
+
 REASONS = {}
 
 
